@@ -62,7 +62,19 @@ c16["technique"] = "TLA+ spec (Aggregator) checked by TLC incl. liveness; paused
 c16["level_note"] = "Trusted: TLC, tokio's paused clock, the agg_drv harness. Virtual time in 1 ms steps; client channel never full; the live-session content comparison is not built."
 CHECKS.append(c16)
 
-PENDING = ["C11","C12","C18","C19","C20"]
+def cluster(pid, sec, text):
+    c = core(pid, sec, text)
+    c["engine"] = "tlc-cluster"
+    c["technique"] = "TLA+ spec (Cluster over Core) checked by TLC; real leader/follower servers over the TCP sync port, marker-key quiescence, read-back validated by TLC"
+    c["level_note"] = ("Trusted: TLC, the cluster harness (in-process servers, WbApi handles, marker key), util.rs projections. Leader loss only at quiescent "
+                       "points; one leader, 1-2 followers; the orchestrator's own stop/start sequence is imitated (graceful shutdown, restart with role flags).")
+    return c
+CHECKS += [
+ cluster("C11", "6/C11", "TLC explores every join point and every interleaving of forwarding (before applying), the two internal registration subscriptions, and follower application for 1-2 followers: whenever a follower's channel is empty its user keys, kinds, versions and the registrations of connected clients equal the leader's; direct writes to a follower are refused. Random leader histories on real servers are validated against the model."),
+ cluster("C12", "6/C12", "TLC checks that after leader loss at a quiescent point, graceful stop and restart of a follower as leader, every replicated user key is served and the grave goods / last wills of all clients connected to the old leader are applied; real runs promote a follower configured from the role flags alone and the recovered state is validated."),
+]
+
+PENDING = ["C18","C19","C20"]
 
 def main():
     import props
@@ -77,7 +89,9 @@ def main():
                         enable="the harness crate /verif/harness depends on /repo/worterbuch with default-features=false, features=[\"verif\",\"redb\"]",
                         baseline_off_cmd=BASELINE,
                         source_commits=["e19d4a5", "8c537d5", "d18b355"], add_only=True),
-             engines=[dict(name="tlc-aggregator", path="spec/Aggregator.tla spec/Trace_Aggregator.tla harness/src/agg_drv.rs",
+             engines=[dict(name="tlc-cluster", path="spec/Cluster.tla spec/Trace_Cluster.tla spec/MC_C11.tla harness/src/cluster_drv.rs",
+                           serves_properties=["C11", "C12"], kind_free_text="TLA+ model of leader, command channels, followers, promotion; TLC; real multi-server runs validated"),
+                      dict(name="tlc-aggregator", path="spec/Aggregator.tla spec/Trace_Aggregator.tla harness/src/agg_drv.rs",
                            serves_properties=["C16"], kind_free_text="TLA+ step machine with discrete time, TLC safety+liveness, paused-clock trace validation"),
                       dict(name="tlc-session", path="spec/Session.tla spec/Trace_Session.tla spec/MC_Session.tla spec/MC_C02.tla harness/src/sock_drv.rs bin/sess.py",
                            serves_properties=["C02", "C13", "C15", "C17"], kind_free_text="session-layer TLA+ model, TLC, socket-level concurrent sessions, position-vector linearizability validation"),
